@@ -23,3 +23,30 @@ func syncFloatPrec(v0, v1 *slip.LongFloat) {
 		_, _, _ = (*big.Float)(v1).Parse(s, 10)
 	}
 }
+
+// checkDivisor raises a division-by-zero error if div, the normalized divisor
+// of the function f, is zero.
+func checkDivisor(s *slip.Scope, depth int, f slip.Object, args slip.List, div slip.Object) {
+	var zero bool
+	switch td := div.(type) {
+	case slip.Fixnum:
+		zero = td == 0
+	case slip.SingleFloat:
+		zero = td == 0.0
+	case slip.DoubleFloat:
+		zero = td == 0.0
+	case *slip.LongFloat:
+		zero = (*big.Float)(td).Sign() == 0
+	case *slip.Bignum:
+		zero = (*big.Int)(td).Sign() == 0
+	case *slip.Ratio:
+		zero = (*big.Rat)(td).Sign() == 0
+	}
+	if zero {
+		name := slip.ObjectString(f)
+		if fun, ok := f.(slip.Funky); ok {
+			name = fun.GetName()
+		}
+		slip.DivisionByZeroPanic(s, depth, slip.Symbol(name), args, "divide by zero")
+	}
+}
